@@ -257,6 +257,10 @@ class MultiWorld(schedeng.World):
                 world.in_release = None
                 world.cur = None
             found = existed and not plain.is_file()
+            if found:
+                # the holding ends here (an aborted start releases inside the failed acquisition callback, while
+                # the job lock is still held; a completed job after its process has ended)
+                world.active.discard(fid(name))
             world._log(["release", s, fid(name)], {"ok": found, "notify": world.notified})
 
         def notify():
